@@ -280,8 +280,7 @@ def resumeCached (st : RSetState) (j : Nat) (h : Handle) (k : Nat) : RSetState Ã
             { sh := { o.sh with cache := s'.sh.cache, genPos := s'.sh.genPos, len := fin' }, its := s'.its }
           let obj := st.cur.sh
           let obj' : Cache.Shared :=
-            { src := obj.src, cache := obj.cache, genPos := obj.genPos, complete := s'.sh.complete,
-              genNone := s'.sh.genNone, lock := s'.sh.lock, len := s'.sh.len }
+            { obj with complete := s'.sh.complete, genNone := s'.sh.genNone, lock := s'.sh.lock, len := s'.sh.len }
           ({ st with cur := { st.cur with sh := obj' }, old := st.old.set pos o' }, some (takeObs s0 s' h.tid vals))
 
 /-- `list(islice(it, k))` on a kept `self._iter()` generator of an uncached set -/
